@@ -380,9 +380,10 @@ func (v *Validator) DecodeRLP(s *rlp.Stream) error {
 	v.Delegations = r.Delegations
 	v.Ext = r.Ext
 
-	if r.Expelled == 1 {
-		v.Expelled = true
+	if r.Expelled > 1 {
+		return fmt.Errorf("rlp: non-canonical expelled flag %d of validator", r.Expelled)
 	}
+	v.Expelled = r.Expelled == 1
 	return nil
 }
 
